@@ -23,6 +23,8 @@ from sa.pyfront import Program
 from sa.symex import Interp
 
 RULES = {
+    "R-C03-j": "no fill method accumulates with `region[<integer array>] += v` (applied once per distinct index, so rows sharing a cell are lost); per-row accumulation goes through bincount",
+    "R-C03-i": "every region an aggregate allocates is 64-bit int/float (or the fact array's own dtype): wide enough for any row count and for the negative intermediate values of marginal differencing",
     "R-C03-h": "every near-zero test that decides 'this differenced counter is zero' (adjust_zeros' default, ffunc_count/xfunc_count.reduce) uses isclose(x, 0) with NumPy's default absolute tolerance, as documented - not a narrower one",
     "R-C03-a": "ffunc_X.__init__ and xfunc_X.__init__ normalise to the same row arrays, for each weight mode",
     "R-C03-b": "per region role, every fill branch of the array cube equals the index cube's cell reducer; every index-cube corner is the all-rows instance of its cell value",
@@ -231,6 +233,16 @@ def main(tier):
     for rule, status, where, cons, detail, wit in CT.items:
         rep.add(rule, where, cons, status, detail, True, wit)
     rep.floor("R-C03-h", 4, nt)
+    CF = AT.Collector()
+    nf = AT.rule_fancy_increment(prog, CF, "R-C03-j")
+    for rule, status, where, cons, detail, wit in CF.items:
+        rep.add(rule, where, cons, status, detail, True, wit)
+    rep.floor("R-C03-j", 10, nf + 0)
+    CD = AT.Collector()
+    nd = AT.rule_region_dtypes(prog, CD, "R-C03-i")
+    for rule, status, where, cons, detail, wit in CD.items:
+        rep.add(rule, where, cons, status, detail, True, wit)
+    rep.floor("R-C03-i", 20, nd)
     rule_g(prog, rep)
     for rule, status, where, cons, detail, wit in C.items:
         rep.add(rule, where, cons, status, detail, True, wit)
